@@ -475,6 +475,12 @@ def shard_async_python(spec: Dict[str, Any], journal: Any) -> Dict[str, Any]:
                     bad('async/classification', f'cause {stats.termination_cause} after {stats.op_counter} ops on an endless loop')
                     continue
                 k = int(stats.op_counter)
+                if device.memory is None:
+                    # interrupted inside run() but before the engine attached the memory: nothing may have been executed
+                    counters['interrupt_before_attach'] = counters.get('interrupt_before_attach', 0) + 1
+                    if k != 0 or device.calls:
+                        bad('async/inconsistent-state', f'no memory attached yet, but {k} ops / {device.calls} IO calls reported')
+                    continue
                 ref = RefMachine(case['w'], [tuple(sg) for sg in case['segments']], {int(a): int(v) for a, v in case['mem']}, b'',
                                  ring_len=64, track=False)
                 ref.read_hook = lambda machine: input_bit_for(machine.io_calls - 1, salt)
